@@ -49,6 +49,29 @@ def flood_schedules():
     for stalled, owner in ((2, 1), (1, 2)):
         out.append({"id": "flood-stalled-t%d" % stalled, "ns": 1, "nt": 2, "route": {"1": [owner]}, "late": [],
                     "cmds": [{"c": "flood", "s": 1, "t": stalled, "n": 105}] + post})
+        # ... and with the receiver blocked handing a task batch to the stalled target's full queue when that target's stream
+        # fails and is re-established: the cooperative phase must still complete
+        out.append({"id": "flood-break-t%d" % stalled, "ns": 1, "nt": 2, "route": {"1": [owner] * 105 + [stalled] + [owner]}, "late": [],
+                    "cmds": [{"c": "flood", "s": 1, "t": stalled, "n": 105}, {"c": "tasks", "s": 1, "k": 1},
+                             {"c": "breaktgt", "t": stalled}, {"c": "reopentgt", "t": stalled}] + post})
+    return out + replace_schedules()
+
+
+def replace_schedules():
+    """a target shard's stream is RE-ESTABLISHED WHILE its previous incarnation is still open (the target cluster noticed the
+    break first), traffic goes on, then the old incarnation's stream ends: every target stream that is left keeps acknowledging,
+    the source keeps sending its watermark - the source must reach its final high watermark (C03), acknowledgements stay monotone
+    and bounded.  (What the old incarnation had in flight is C04's subject.)"""
+    post = [{"c": "drain"}] + [{"c": "tick"}] * 4 + [{"c": "final"}]
+    out = []
+    for t in (1, 2):
+        # (a watermark-only batch before the replacement: whatever the proxy derives from the set of registered streams exists)
+        pre = [{"c": "tasks", "s": 1, "k": 2}, {"c": "wm", "s": 1}, {"c": "drain"}, {"c": "ack", "t": 1}, {"c": "ack", "t": 2}]
+        mid = [{"c": "tasks", "s": 1, "k": 2}, {"c": "wm", "s": 1}, {"c": "drain"}]
+        out.append({"id": "replace-t%d-idle" % t, "ns": 1, "nt": 2, "route": {"1": [1, 2]}, "late": [],
+                    "cmds": pre + [{"c": "replacetgt", "t": t}, {"c": "endold", "t": t}] + mid + post})
+        out.append({"id": "replace-t%d-traffic" % t, "ns": 1, "nt": 2, "route": {"1": [1, 2]}, "late": [],
+                    "cmds": pre + [{"c": "replacetgt", "t": t}] + mid + [{"c": "endold", "t": t}] + mid + post})
     return out
 
 
@@ -504,7 +527,7 @@ def run(c, a):
         c.violation(sig, "%s at %s (source %d id %d) in run %s" % (clause, json.dumps(run_ev[li]), s, tid, run_ev[0].get("id")),
                     {"kind": "routing-trace", "clause": clause, "trace": sched})
     # 5. conformance of the recorded runs with the design spec
-    conf_runs = [r for r in runs_only if not str(r[0].get("id", "")).startswith(("bulk-", "ahead-")) and not r[0].get("rawless")
+    conf_runs = [r for r in runs_only if not str(r[0].get("id", "")).startswith(("bulk-", "ahead-", "replace-", "flood-break")) and not r[0].get("rawless")
                  and not any(e["ev"] == "SrcAckArm" for e in r)]
     if len(conf_runs) < len(runs_only):
         c.notes.append("%d constructed bulk runs (> 1024 tasks in flight) are judged by the monitor only: the trace spec is bounded "
